@@ -73,7 +73,11 @@ static int f_level[VP_MAXF];
 static ldb_versions_t vset;
 static ldb_version_t ver;
 static ldb_dbopt_t dbopt;
-static void *lvl_items[LDB_NUM_LEVELS][VP_MAXF + 1];
+/* one pointer array per level (CBMC's value sets are per array object: with one
+   shared 2-D array every f-> dereference considers every file of the version) */
+static void *lvl_items0[VP_N0 + 1], *lvl_items1[VP_N1 + 1], *lvl_items2[VP_N2 + 1], *lvl_items3[VP_N3 + 1],
+            *lvl_items4[VP_N4 + 1], *lvl_items5[VP_N5 + 1], *lvl_items6[VP_N6 + 1];
+static void **const lvl_items[LDB_NUM_LEVELS] = {lvl_items0, lvl_items1, lvl_items2, lvl_items3, lvl_items4, lvl_items5, lvl_items6};
 
 /* internal-key order on (user key, tag): user key ascending, tag descending */
 static int
@@ -81,6 +85,19 @@ ik_cmp(uint8_t u1, uint64_t t1, uint8_t u2, uint64_t t2) {
   if (u1 != u2) return u1 < u2 ? -1 : 1;
   if (t1 != t2) return t1 > t2 ? -1 : 1;
   return 0;
+}
+
+#ifndef VP_KEYMAX
+#define VP_KEYMAX 255   /* user keys 0..VP_KEYMAX (1 byte) */
+#endif
+
+static uint8_t
+vp_key(void) {
+  uint8_t k = vp_u8();
+#if VP_KEYMAX < 255
+  VP_ASSUME(k <= VP_KEYMAX);
+#endif
+  return k;
 }
 
 static uint64_t
@@ -115,9 +132,9 @@ vp_build_version(void) {
 
   for (f = 0; f < VP_F; f++) {
     f_level[f] = vp_level_of(f);   /* concrete */
-    f_su[f] = vp_u8();
+    f_su[f] = vp_key();
     f_st[f] = vp_tag();
-    f_lu[f] = vp_u8();
+    f_lu[f] = vp_key();
     f_lt[f] = vp_tag();
     f_size[f] = vp_u64();
     VP_ASSUME(f_size[f] <= VP_SIZEMAX);
@@ -157,9 +174,9 @@ vp_build_version(void) {
   ver.compaction_score = -1;
   ver.compaction_level = -1;
   for (lvl = 0; lvl < LDB_NUM_LEVELS; lvl++) {
-    ver.files[lvl].items = &lvl_items[lvl][0];
+    ver.files[lvl].items = lvl_items[lvl];
     ver.files[lvl].length = 0;
-    ver.files[lvl].alloc = VP_MAXF + 1;
+    ver.files[lvl].alloc = (size_t)vp_ncount[lvl] + 1;
   }
   for (f = 0; f < VP_F; f++) {
     lvl = f_level[f];               /* concrete */
